@@ -169,13 +169,17 @@ class Ctx:
         return (p.stdout or b"").decode("utf8", "replace") if not stdout_path else ""
 
     # ---------------------------------------------------------------- isolated execution
-    def isolated(self, binary, args, n_cases, out_path, per_case_timeout=10.0, env=None):
+    def isolated(self, binary, args, n_cases, out_path, per_case_timeout=10.0, env=None, max_dead=None):
         """Runs `binary args --from <k>` under supervision (protocol: util::run_isolated in the harness).
         The harness appends one JSON result per case to out_path.  A case during which the process died
         (signal / abort / exit) or exceeded per_case_timeout gets a synthetic result
         {"i": i, "outcome": "abort"|"timeout", "signal": n} appended instead, and the run resumes after it.
-        Returns the list of results sorted by case index."""
+        Returns the list of results sorted by case index.
+        After three timeouts the per-case limit drops to a fifth (>= 2 s): a change that makes many cases hang would
+        otherwise cost the full limit for each of them.  With max_dead=N the run stops after N dead / hung cases and
+        the results cover a prefix of the cases only (the caller must cope; extra["cases_not_run"] records it)."""
         import select
+        timeouts = 0
         e = dict(os.environ)
         e["VERIF_SEED"] = str(self.seed)
         e["VERIF_TIER"] = self.tier
@@ -210,7 +214,8 @@ class Ctx:
                             cur = None
                 elif p.poll() is not None:
                     break
-                if cur is not None and time.time() - t_case > per_case_timeout:
+                limit = per_case_timeout if timeouts < 3 else max(2.0, per_case_timeout / 5.0)
+                if cur is not None and time.time() - t_case > limit:
                     p.kill()
                     killed = "timeout"
                     break
@@ -227,6 +232,11 @@ class Ctx:
                                     "stderr": err}) + "\n")
             start = cur + 1
             restarts += 1
+            timeouts += 1 if killed else 0
+            if max_dead is not None and restarts >= max_dead and start < n_cases:
+                self.extra["cases_not_run"] = self.extra.get("cases_not_run", 0) + (n_cases - start)
+                self.log("worker died / hung on %d cases: the remaining %d cases are not run" % (restarts, n_cases - start))
+                break
             if restarts > 2000:
                 raise ToolError("too many worker restarts")
         res = read_ndjson(out_path) if os.path.exists(out_path) else []
